@@ -32,7 +32,9 @@ GATES = ["attempts", "existing_public", "existing_private", "property_names", "f
 
 FRESH = ("foo", "DF9999", "newattr", "x", "Payload", "IDF999", "NSatellites", "identity_", "a_01", "DF002_01",
          # names that are awkward inside an error text (setattr accepts any string): format directives, braces, quotes
-         "DF%03d", "load%", "%s", "{0}", "{name}", "a'b", 'a"b', "back\\slash", "new\nline", "", "é")
+         "DF%03d", "load%", "%s", "{0}", "{name}", "a'b", 'a"b', "back\\slash", "new\nline", "", "é",
+         # names of the form __x__ (tooling hooks, and the object's own machinery)
+         "__orig_class__", "__wrapped__", "__x__", "__doc__", "__dict__", "__class__", "__slots__", "__weakref__")
 VALUES = (0, 1, -1, 3.5, "x", "", None, b"\x00", [], {}, True, 2**70)
 
 
@@ -76,6 +78,11 @@ def run_case(ctx, payload, labelmsm, seedtag, nattempts, tag):
     try:
         how = seedtag % 3 if 2 <= len(payload) <= 1023 else 0
         if how == 0:
+            if seedtag % 7 == 0:
+                # a station message repeats verbatim for hours: the message under test is the 40th identical construction
+                for _ in range(39):
+                    RTCMMessage(payload=payload, labelmsm=labelmsm)
+                ctx.hit("after_39_identical_constructions")
             m = RTCMMessage(payload=payload, labelmsm=labelmsm)
         elif how == 1:  # message obtained from the static frame parser
             from pyrtcm import RTCMReader
